@@ -617,7 +617,10 @@ fn check(prop: &str, tier: Tier) -> i32 {
                 reported.push(json!({"class": class, "case": fv.case, "replay": rfile.display().to_string(), "detail": fv.detail}));
                 continue;
             }
-            let (minplan, steps) = if is_crash_class(&class) {
+            let no_shrink = std::env::var("SCALESIM_NO_SHRINK").is_ok();
+            let (minplan, steps) = if no_shrink {
+                (fv.plan.clone(), 0)
+            } else if is_crash_class(&class) {
                 let mut test = |p: &Plan| outcome_class(&run_plan_in_child_caps(p, Duration::from_secs(120), Some(256)));
                 // confirm first
                 if test(&fv.plan).as_deref() != Some(class.as_str()) {
